@@ -7,7 +7,7 @@ from collections import defaultdict
 
 STRIP_KINDS = {
     'ImplicitCastExpr', 'ParenExpr', 'MaterializeTemporaryExpr', 'ExprWithCleanups',
-    'CXXBindTemporaryExpr', 'ConstantExpr', 'SubstNonTypeTemplateParmExpr',
+    'CXXBindTemporaryExpr', 'ConstantExpr', 'SubstNonTypeTemplateParmExpr', 'CXXRewrittenBinaryOperator',
 }
 
 
